@@ -136,27 +136,31 @@ func (e *recEnc) AddObject(k string, m zapcore.ObjectMarshaler) error {
 	return m.MarshalLogObject(sub)
 }
 
-func (e *recEnc) AddBinary(k string, v []byte)          { e.leaf(k, "binary", hx(v)) }
-func (e *recEnc) AddByteString(k string, v []byte)      { e.leaf(k, "bytestr", string(v)) }
-func (e *recEnc) AddBool(k string, v bool)              { e.leaf(k, "bool", strconv.FormatBool(v)) }
-func (e *recEnc) AddComplex128(k string, v complex128)  { e.leaf(k, "c128", fmt.Sprint(v)) }
-func (e *recEnc) AddComplex64(k string, v complex64)    { e.leaf(k, "c64", fmt.Sprint(v)) }
-func (e *recEnc) AddDuration(k string, v time.Duration) { e.leaf(k, "dur", strconv.FormatInt(int64(v), 10)) }
-func (e *recEnc) AddFloat64(k string, v float64)        { e.leaf(k, "f64", f64text(v)) }
-func (e *recEnc) AddFloat32(k string, v float32)        { e.leaf(k, "f32", f64text(float64(v))) }
-func (e *recEnc) AddInt(k string, v int)                { e.leaf(k, "int", strconv.Itoa(v)) }
-func (e *recEnc) AddInt64(k string, v int64)            { e.leaf(k, "i64", strconv.FormatInt(v, 10)) }
-func (e *recEnc) AddInt32(k string, v int32)            { e.leaf(k, "i32", strconv.FormatInt(int64(v), 10)) }
-func (e *recEnc) AddInt16(k string, v int16)            { e.leaf(k, "i16", strconv.FormatInt(int64(v), 10)) }
-func (e *recEnc) AddInt8(k string, v int8)              { e.leaf(k, "i8", strconv.FormatInt(int64(v), 10)) }
-func (e *recEnc) AddString(k, v string)                 { e.leaf(k, "str", v) }
-func (e *recEnc) AddTime(k string, v time.Time)         { e.leaf(k, "time", timeText(v)) }
-func (e *recEnc) AddUint(k string, v uint)              { e.leaf(k, "uint", strconv.FormatUint(uint64(v), 10)) }
-func (e *recEnc) AddUint64(k string, v uint64)          { e.leaf(k, "u64", strconv.FormatUint(v, 10)) }
-func (e *recEnc) AddUint32(k string, v uint32)          { e.leaf(k, "u32", strconv.FormatUint(uint64(v), 10)) }
-func (e *recEnc) AddUint16(k string, v uint16)          { e.leaf(k, "u16", strconv.FormatUint(uint64(v), 10)) }
-func (e *recEnc) AddUint8(k string, v uint8)            { e.leaf(k, "u8", strconv.FormatUint(uint64(v), 10)) }
-func (e *recEnc) AddUintptr(k string, v uintptr)        { e.leaf(k, "uptr", strconv.FormatUint(uint64(v), 10)) }
+func (e *recEnc) AddBinary(k string, v []byte)         { e.leaf(k, "binary", hx(v)) }
+func (e *recEnc) AddByteString(k string, v []byte)     { e.leaf(k, "bytestr", string(v)) }
+func (e *recEnc) AddBool(k string, v bool)             { e.leaf(k, "bool", strconv.FormatBool(v)) }
+func (e *recEnc) AddComplex128(k string, v complex128) { e.leaf(k, "c128", fmt.Sprint(v)) }
+func (e *recEnc) AddComplex64(k string, v complex64)   { e.leaf(k, "c64", fmt.Sprint(v)) }
+func (e *recEnc) AddDuration(k string, v time.Duration) {
+	e.leaf(k, "dur", strconv.FormatInt(int64(v), 10))
+}
+func (e *recEnc) AddFloat64(k string, v float64) { e.leaf(k, "f64", f64text(v)) }
+func (e *recEnc) AddFloat32(k string, v float32) { e.leaf(k, "f32", f64text(float64(v))) }
+func (e *recEnc) AddInt(k string, v int)         { e.leaf(k, "int", strconv.Itoa(v)) }
+func (e *recEnc) AddInt64(k string, v int64)     { e.leaf(k, "i64", strconv.FormatInt(v, 10)) }
+func (e *recEnc) AddInt32(k string, v int32)     { e.leaf(k, "i32", strconv.FormatInt(int64(v), 10)) }
+func (e *recEnc) AddInt16(k string, v int16)     { e.leaf(k, "i16", strconv.FormatInt(int64(v), 10)) }
+func (e *recEnc) AddInt8(k string, v int8)       { e.leaf(k, "i8", strconv.FormatInt(int64(v), 10)) }
+func (e *recEnc) AddString(k, v string)          { e.leaf(k, "str", v) }
+func (e *recEnc) AddTime(k string, v time.Time)  { e.leaf(k, "time", timeText(v)) }
+func (e *recEnc) AddUint(k string, v uint)       { e.leaf(k, "uint", strconv.FormatUint(uint64(v), 10)) }
+func (e *recEnc) AddUint64(k string, v uint64)   { e.leaf(k, "u64", strconv.FormatUint(v, 10)) }
+func (e *recEnc) AddUint32(k string, v uint32)   { e.leaf(k, "u32", strconv.FormatUint(uint64(v), 10)) }
+func (e *recEnc) AddUint16(k string, v uint16)   { e.leaf(k, "u16", strconv.FormatUint(uint64(v), 10)) }
+func (e *recEnc) AddUint8(k string, v uint8)     { e.leaf(k, "u8", strconv.FormatUint(uint64(v), 10)) }
+func (e *recEnc) AddUintptr(k string, v uintptr) {
+	e.leaf(k, "uptr", strconv.FormatUint(uint64(v), 10))
+}
 func (e *recEnc) AddReflected(k string, v interface{}) error {
 	e.leaf(k, "reflect", fmt.Sprint(v))
 	return nil
@@ -171,27 +175,27 @@ func (e *recEnc) OpenNamespace(k string) {
 // recArr collects the elements of an array field as text.
 type recArr struct{ elems []string }
 
-func (a *recArr) add(v any)                          { a.elems = append(a.elems, fmt.Sprint(v)) }
-func (a *recArr) AppendBool(v bool)                  { a.add(v) }
-func (a *recArr) AppendByteString(v []byte)          { a.add(string(v)) }
-func (a *recArr) AppendComplex128(v complex128)      { a.add(v) }
-func (a *recArr) AppendComplex64(v complex64)        { a.add(v) }
-func (a *recArr) AppendFloat64(v float64)            { a.add(v) }
-func (a *recArr) AppendFloat32(v float32)            { a.add(v) }
-func (a *recArr) AppendInt(v int)                    { a.add(v) }
-func (a *recArr) AppendInt64(v int64)                { a.add(v) }
-func (a *recArr) AppendInt32(v int32)                { a.add(v) }
-func (a *recArr) AppendInt16(v int16)                { a.add(v) }
-func (a *recArr) AppendInt8(v int8)                  { a.add(v) }
-func (a *recArr) AppendString(v string)              { a.add(v) }
-func (a *recArr) AppendUint(v uint)                  { a.add(v) }
-func (a *recArr) AppendUint64(v uint64)              { a.add(v) }
-func (a *recArr) AppendUint32(v uint32)              { a.add(v) }
-func (a *recArr) AppendUint16(v uint16)              { a.add(v) }
-func (a *recArr) AppendUint8(v uint8)                { a.add(v) }
-func (a *recArr) AppendUintptr(v uintptr)            { a.add(v) }
-func (a *recArr) AppendDuration(v time.Duration)     { a.add(int64(v)) }
-func (a *recArr) AppendTime(v time.Time)             { a.add(timeText(v)) }
+func (a *recArr) add(v any)                           { a.elems = append(a.elems, fmt.Sprint(v)) }
+func (a *recArr) AppendBool(v bool)                   { a.add(v) }
+func (a *recArr) AppendByteString(v []byte)           { a.add(string(v)) }
+func (a *recArr) AppendComplex128(v complex128)       { a.add(v) }
+func (a *recArr) AppendComplex64(v complex64)         { a.add(v) }
+func (a *recArr) AppendFloat64(v float64)             { a.add(v) }
+func (a *recArr) AppendFloat32(v float32)             { a.add(v) }
+func (a *recArr) AppendInt(v int)                     { a.add(v) }
+func (a *recArr) AppendInt64(v int64)                 { a.add(v) }
+func (a *recArr) AppendInt32(v int32)                 { a.add(v) }
+func (a *recArr) AppendInt16(v int16)                 { a.add(v) }
+func (a *recArr) AppendInt8(v int8)                   { a.add(v) }
+func (a *recArr) AppendString(v string)               { a.add(v) }
+func (a *recArr) AppendUint(v uint)                   { a.add(v) }
+func (a *recArr) AppendUint64(v uint64)               { a.add(v) }
+func (a *recArr) AppendUint32(v uint32)               { a.add(v) }
+func (a *recArr) AppendUint16(v uint16)               { a.add(v) }
+func (a *recArr) AppendUint8(v uint8)                 { a.add(v) }
+func (a *recArr) AppendUintptr(v uintptr)             { a.add(v) }
+func (a *recArr) AppendDuration(v time.Duration)      { a.add(int64(v)) }
+func (a *recArr) AppendTime(v time.Time)              { a.add(timeText(v)) }
 func (a *recArr) AppendReflected(v interface{}) error { a.add(v); return nil }
 func (a *recArr) AppendArray(m zapcore.ArrayMarshaler) error {
 	sub := &recArr{}
